@@ -310,8 +310,10 @@ def report(prop, a, checks, results, native, seed, t0):
                 for vc in res.get('vcs', []):
                     if vc['kind'] != 'cover' and vc['name'] in proved_names:
                         max_ms[vc['name']] = max(max_ms.get(vc['name'], 0), vc.get('ms', 0))
+            signatures = {res['id']: res['meta']['params'] for res in results
+                          if isinstance(res.get('meta'), dict) and res['meta'].get('params') is not None}
             json.dump({'property': prop, 'proved': sorted(proved_names),
-                       'ematch_provable': sorted(em & proved_names), 'max_ms': max_ms}, f, indent=1)
+                       'ematch_provable': sorted(em & proved_names), 'max_ms': max_ms, 'signatures': signatures}, f, indent=1)
         print(f'recorded baseline: {len(proved_names)} obligation names')
     elif base_names is not None and not a.only:
         missing = base_names - all_names
